@@ -183,8 +183,40 @@ func (z *zoneGen) addrs(name string) {
 				ans = slices.Insert(ans, 0, zoneh.Ans{Owner: "evil.example", Type: 5, TTL: 5, Name: "evil2.example"}, mk("evil2.example", true))
 			}
 		}
+		if r.IntN(4) == 0 {
+			// records of other types under the very name asked about (a middlebox answering the wrong
+			// question, signatures next to the data): only records of the type asked for may be used
+			z.shape["wrongtype"] = true
+			owner := name
+			if len(ans) > 0 {
+				owner = ans[len(ans)-1].Owner
+			}
+			for _, w := range z.wrongType(owner, typ) {
+				ans = slices.Insert(ans, r.IntN(len(ans)+1), w)
+			}
+		}
 		z.u[zoneh.Key{Name: name, Type: typ}] = zoneh.Resp{Answers: ans}
 	}
+}
+
+// wrongType returns well-formed records owned by owner whose type is not typ.
+func (z *zoneGen) wrongType(owner string, typ int) []zoneh.Ans {
+	r := z.r
+	rrsig := gen.Cat(gen.U16(typ), []byte{13, 2}, []byte{0, 0, 1, 44}, []byte{0x70, 0, 0, 0}, []byte{0x60, 0, 0, 0}, gen.U16(4711), []byte{7, 'e', 'x', 'a', 'm', 'p', 'l', 'e', 0}, gen.RandBytes(r, 16))
+	all := []zoneh.Ans{
+		{Owner: owner, Type: 1, TTL: 60, IP: z.ip4(true)},
+		{Owner: owner, Type: 28, TTL: 60, IP: z.ip6(true)},
+		{Owner: owner, Type: 65, TTL: 60, HTTPS: &zoneh.HTTPS{Priority: 1, V4: [][]byte{z.ip4(true)}, ECH: []byte("wrongtype")}},
+		{Owner: owner, Type: 16, TTL: 60, Raw: gen.LP8([]byte("v=spf1 -all"))},
+		{Owner: owner, Type: 46, TTL: 60, Raw: rrsig},
+	}
+	var out []zoneh.Ans
+	for _, a := range all {
+		if a.Type != typ && r.IntN(2) == 0 {
+			out = append(out, a)
+		}
+	}
+	return out
 }
 
 func (z *zoneGen) service(qname string, host string) {
@@ -225,6 +257,12 @@ func (z *zoneGen) service(qname string, host string) {
 		z.shape["poison"] = true
 		ans = append(ans, zoneh.Ans{Owner: "evil.example", Type: 65, TTL: 9, HTTPS: &zoneh.HTTPS{Priority: 1, V4: [][]byte{z.ip4(true)}, ECH: []byte("evil")}})
 		ans = slices.Insert(ans, 0, zoneh.Ans{Owner: "evil.example", Type: 65, TTL: 9, HTTPS: &zoneh.HTTPS{Priority: 0, Target: "evil-alias.example"}})
+	}
+	if r.IntN(4) == 0 {
+		z.shape["wrongtype"] = true
+		for _, w := range z.wrongType(qname, 65) {
+			ans = slices.Insert(ans, r.IntN(len(ans)+1), w)
+		}
 	}
 	z.u[zoneh.Key{Name: qname, Type: 65}] = zoneh.Resp{Answers: ans}
 }
